@@ -137,7 +137,8 @@ def gen_walks(tier, seed, workdir):
         out = []
         for n, f in enumerate(sorted(glob.glob(os.path.join(outdir, "*.json")))):
             s = json.load(open(f))
-            s["id"] = "walk-%s-%d%d-%d-%d" % (diff, ln, ld, seed, n)
+            s["id"] = "w%d.%d.%d" % (i, seed, n)
+            s["diff"] = diff
             s["kind"] = "walk"
             s["lvl"] = [ln, ld]
             out.append(s)
@@ -168,11 +169,11 @@ def gen_cases(tier, workdir, levels, kinds=("hdr", "misb", "rec", "upg"), tag="c
         for m in re.finditer(r'<<"CASES", "(\w+)", (\d+), (\d+)>>', r["out"]):
             counts["%s-%d%d" % (m.group(1), ln, ld)] = {"cases": int(m.group(2)), "accepted_by_spec": int(m.group(3))}
         for kind in kinds:
-            if kind in ("rec", "upg") and n > 0:
+            if kind in ("rec", "upg", "misb") and n > 0:
                 continue
             cases = json.load(open(os.path.join(outdir, "cases_%s.json" % kind)))
             for i, c in enumerate(cases):
-                c["id"] = "%s-%d%d-%d" % (kind, ln, ld, i)
+                c["id"] = "%s%d%d.%d" % (kind[0], ln, ld, i)
                 c["lvl"] = [ln, ld]
                 out.append(c)
         return out
@@ -181,7 +182,9 @@ def gen_cases(tier, workdir, levels, kinds=("hdr", "misb", "rec", "upg"), tag="c
         scheds.extend(lst)
     shutil.rmtree(d, ignore_errors=True)
     for k, v in counts.items():
-        if v["cases"] == 0 or (not k.startswith("misb") and v["accepted_by_spec"] in (0, v["cases"])):
+        if k.split("-")[0] not in kinds:
+            continue
+        if v["cases"] == 0 or v["accepted_by_spec"] in (0, v["cases"]):
             raise vk.Infra("vacuous case table %s: %s" % (k, v))
     return scheds, counts
 
@@ -357,7 +360,7 @@ def in_class_kf_c24_1(sched, step):
 
 def match_known(fail, schedule, known):
     tr, step, prop, clause = fail
-    if prop == "C24" and clause == "accepted:trusted-power-below-trust-level" and in_class_kf_c24_1(schedule, step):
+    if prop == "C24" and clause == "ok:trust-power-low" and in_class_kf_c24_1(schedule, step):
         for k in known:
             if k.get("id") == "KF-C24-1":
                 return k
@@ -382,7 +385,7 @@ def run_probes(binary, tier, workdir):
     input class are attributed to the finding, every other monitor failure of the probe batch is reported normally."""
     scheds, _ = gen_cases("quick", workdir, [HIGH_LEVEL], kinds=("hdr",), tag="probe")
     for s in scheds:
-        s["id"] = "probe-" + s["id"]
+        s["id"] = "p" + s["id"]
         s["kind"] = "probe"
     lines = drive(binary, scheds, workdir, "probe", 4)
     fails, steps = validate(lines, workdir, "probe", STD["UBD0"])
